@@ -68,6 +68,8 @@ type tableDef struct {
 	fromVals     func(k rowKey, vals []Val, old any) (any, error)
 	beforeInsert func(x *sqlExec, d *tableDef, vals []Val) error
 	afterInsert  func(x *sqlExec, d *tableDef, vals []Val) error
+	afterDelete  func(x *sqlExec, d *tableDef, vals []Val) error
+	system       bool // a table of the _system schema (not per bucket, not per ledger)
 }
 
 func (d *tableDef) colNames() []string {
@@ -201,7 +203,7 @@ func pkUniq(name string, cols ...string) *uniqDef {
 var tableDefs = map[string]*tableDef{}
 
 func init() {
-	for _, d := range []*tableDef{volumesTable(), transactionsTable(), logsTable(), accountsTable(), schemasTable(), movesTable()} {
+	for _, d := range []*tableDef{volumesTable(), transactionsTable(), logsTable(), accountsTable(), schemasTable(), movesTable(), pipelinesTable(), exportersTable()} {
 		tableDefs[d.name] = d
 	}
 }
